@@ -14,18 +14,18 @@ struct CallRec { int unit; int draw; std::vector<double> args; };
 struct Monitor {
   double (*source)(size_t pos, void* ctx) = nullptr; void* ctx=nullptr;
   size_t next = 0; size_t horizon = 100000; bool stub_bb=false; long bb_calls=0;
-  double min_margin = 1e300; double min_qmargin = 1e300; double min_smargin = 1e300; long ncmp = 0;
+  double min_margin = 1e300; int min_margin_line = 0; double min_qmargin = 1e300; double min_smargin = 1e300; double min_tmargin = 1e300; long ncmp = 0;
   std::vector<int> draw_sites; std::vector<unsigned> draw_ctx; std::vector<double> draw_vals;
   std::vector<CmpRec> cmps; bool log_cmps=false; int log_draw=-1;
   std::vector<CallRec> calls; bool log_calls=false;
   int stack[64]; int sp=0;
-  void reset(){ next=0; min_margin=1e300; min_qmargin=1e300; min_smargin=1e300; ncmp=0; draw_sites.clear(); draw_ctx.clear(); draw_vals.clear(); cmps.clear(); calls.clear(); sp=0; }
+  void reset(){ next=0; min_margin=1e300; min_qmargin=1e300; min_smargin=1e300; min_tmargin=1e300; ncmp=0; draw_sites.clear(); draw_ctx.clear(); draw_vals.clear(); cmps.clear(); calls.clear(); sp=0; }
 };
 struct HorizonExceeded {};
 extern Monitor mon;
 inline R DRAW(int site){ if (mon.next>=mon.horizon) throw HorizonExceeded(); unsigned h=2166136261u; for(int i=0;i<mon.sp;i++){h=(h^(unsigned)mon.stack[i])*16777619u;} h=(h^(unsigned)site)*16777619u;
   mon.draw_sites.push_back(site); mon.draw_ctx.push_back(h); double v = mon.source(mon.next, mon.ctx); mon.draw_vals.push_back(v); mon.next++; return v; }
-inline void margin(R a, R b,int line){ mon.ncmp++; if (mon.log_cmps && (int)mon.next-1==mon.log_draw) mon.cmps.push_back({(int)mon.next-1,line,a,b,0}); if (a==b) return; double m = std::fabs(a-b)/(std::fabs(a)+std::fabs(b)); if (m<mon.min_margin) mon.min_margin=m; }
+inline void margin(R a, R b,int line){ mon.ncmp++; if (mon.log_cmps && (int)mon.next-1==mon.log_draw) mon.cmps.push_back({(int)mon.next-1,line,a,b,0}); if (a==b) return; double m = std::fabs(a-b)/(std::fabs(a)+std::fabs(b)); if (m<mon.min_margin) { mon.min_margin=m; mon.min_margin_line=line; } }
 inline bool CMP_LT(R a,R b,int l){ margin(a,b,l); return a<b; }
 inline bool CMP_LE(R a,R b,int l){ margin(a,b,l); return a<=b; }
 inline bool CMP_GT(R a,R b,int l){ margin(a,b,l); return a>b; }
@@ -40,6 +40,14 @@ inline void smargin(R a, R b,int line){ mon.ncmp++; if (mon.log_cmps && (int)mon
 inline bool SCMP_LT(R a,R b,int l){ smargin(a,b,l); return a<b; } inline bool SCMP_LE(R a,R b,int l){ smargin(a,b,l); return a<=b; }
 inline bool SCMP_GT(R a,R b,int l){ smargin(a,b,l); return a>b; } inline bool SCMP_GE(R a,R b,int l){ smargin(a,b,l); return a>=b; }
 inline bool SCMP_EQ(R a,R b,int){ return a==b; } inline bool SCMP_NE(R a,R b,int){ return a!=b; }
+inline void tmargin(R a, R b,int line){ mon.ncmp++; if (mon.log_cmps && (int)mon.next-1==mon.log_draw) mon.cmps.push_back({(int)mon.next-1,line,a,b,3}); if (a==b) return; double m = std::fabs(a-b)/(std::fabs(a)+std::fabs(b)); if (m<mon.min_tmargin) mon.min_tmargin=m; }
+inline bool TCMP_LT(R a,R b,int l){ tmargin(a,b,l); return a<b; } inline bool TCMP_LE(R a,R b,int l){ tmargin(a,b,l); return a<=b; }
+inline bool TCMP_GT(R a,R b,int l){ tmargin(a,b,l); return a>b; } inline bool TCMP_GE(R a,R b,int l){ tmargin(a,b,l); return a>=b; }
+inline bool TCMP_EQ(R a,R b,int){ return a==b; } inline bool TCMP_NE(R a,R b,int){ return a!=b; }
+inline void cmargin(R a, R b,int line){ mon.ncmp++; if (mon.log_cmps && (int)mon.next-1==mon.log_draw) mon.cmps.push_back({(int)mon.next-1,line,a,b,2}); }
+inline bool CCMP_LT(R a,R b,int l){ cmargin(a,b,l); return a<b; } inline bool CCMP_LE(R a,R b,int l){ cmargin(a,b,l); return a<=b; }
+inline bool CCMP_GT(R a,R b,int l){ cmargin(a,b,l); return a>b; } inline bool CCMP_GE(R a,R b,int l){ cmargin(a,b,l); return a>=b; }
+inline bool CCMP_EQ(R a,R b,int){ return a==b; } inline bool CCMP_NE(R a,R b,int){ return a!=b; }
 inline bool CMP_EQ(R a,R b,int){ return a==b; }
 inline bool CMP_NE(R a,R b,int){ return a!=b; }
 inline void TRACE_CALL(int unit, std::initializer_list<double> a){ if (mon.log_calls) mon.calls.push_back({unit,(int)mon.next,std::vector<double>(a)}); }
